@@ -320,15 +320,21 @@ def _worker(job):
                 "traceback": traceback.format_exc()[-3000:]}
 
 
-def confirmed_violation(r):
-    """does this result carry a refuted obligation whose counter-model was replayed on the real code?"""
+def confirmed_violation(r, prop=None):
+    """does this result carry a refuted obligation of property `prop` whose counter-model was replayed on the real
+    code?  (obligations tagged for other properties do not count: they are not violations of the property checked)"""
+    h = registry.HARNESSES.get(r.get("harness"))
     for name, o in (r.get("obligations") or {}).items():
+        if prop is not None and h is not None:
+            props, _ = registry.obligation_props(name, h.props)
+            if prop not in props:
+                continue
         if o.get("refuted") and (r.get("replays") or {}).get(name, {}).get("confirmed"):
             return True
     return False
 
 
-def run_jobs(jobs, nproc=None, fail_fast=False):
+def run_jobs(jobs, nproc=None, fail_fast=False, prop=None):
     """fail_fast: stop scheduling once a family member reports a violation confirmed on the real code (the remaining
     members are not needed for the verdict; on broken code they can take very long)"""
     nproc = nproc or min(16, os.cpu_count() or 4)
@@ -336,7 +342,7 @@ def run_jobs(jobs, nproc=None, fail_fast=False):
         out = []
         for j in jobs:
             out.append(_worker(j))
-            if fail_fast and confirmed_violation(out[-1]):
+            if fail_fast and confirmed_violation(out[-1], prop):
                 break
         return out
     ctx = mp.get_context("fork")
@@ -344,7 +350,7 @@ def run_jobs(jobs, nproc=None, fail_fast=False):
     with ctx.Pool(nproc, maxtasksperchild=8) as pool:
         for r in pool.imap_unordered(_worker, jobs, chunksize=1):
             out.append(r)
-            if fail_fast and confirmed_violation(r):
+            if fail_fast and confirmed_violation(r, prop):
                 pool.terminate()
                 break
     return out
